@@ -78,7 +78,7 @@ class Device:
 
         def deliver(data, delay=0.0):
             sock.deliver(data, delay)
-            w.events.append(('deliver', data.decode(), sock.inbox[-1][0]))
+            w.events.append(('deliver', data.decode(), w.sched.now + delay))
         if answer == 'now':
             deliver(rep)
         elif answer == 'late':
@@ -292,10 +292,9 @@ def stale_class(world, cmd, rep):
     t_sent = world.events[sent][2] if sent is not None else None
     # the device's output as one byte stream, every byte with its arrival time and the index of its delivery event
     stream, meta = '', []
-    for k, e in enumerate(world.events):
-        if e[0] == 'deliver':
-            stream += e[1]
-            meta += [(e[2], k)] * len(e[1])
+    for k, e in sorted(((k, e) for k, e in enumerate(world.events) if e[0] == 'deliver'), key=lambda ke: ke[1][2]):
+        stream += e[1]
+        meta += [(e[2], k)] * len(e[1])
     pos = stream.find(rep) if rep else -1
     if pos < 0:
         return 'reply-invented'
